@@ -152,7 +152,7 @@ def mutated_geometry(draw):
     nmut = draw(st.sampled_from([0, 1, 1, 1, 2]))
     muts = []
     for _ in range(nmut):
-        m = draw(st.sampled_from(["leaf", "leaf", "leaf", "drop_comp", "add_comp", "truncate", "wrap", "unwrap", "reverse", "tag", "backward", "vertical", "empty", "int_leaf"]))
+        m = draw(st.sampled_from(["leaf", "leaf", "leaf", "drop_comp", "add_comp", "truncate", "wrap", "unwrap", "reverse", "tag", "backward", "vertical", "empty", "int_leaf", "move_number", "move_member"]))
         muts.append(m)
         if m in ("leaf", "int_leaf"):
             paths = list(_leaf_paths(c))
@@ -208,6 +208,23 @@ def mutated_geometry(draw):
                     else:
                         line[-1] = [line[0][0], line[-1][1]]
                     c = _set(c, (i,), line)
+        elif m in ("move_number", "move_member"):
+            # two compensating defects inside one geometry: a number (or a whole member) leaves one list and joins a sibling, so every
+            # total (numbers per geometry, rings per multi-polygon, points per multi-line) stays what it was
+            groups = {}
+            for q in _list_paths(c):
+                x = _get(c, q)
+                if q and isinstance(x, list) and x and ((m == "move_number" and not isinstance(x[0], list)) or (m == "move_member" and isinstance(x[0], list))):
+                    groups.setdefault(q[:-1], []).append(q)
+            sibs = [g for g in groups.values() if len(g) >= 2]
+            if not sibs:
+                continue
+            g_ = sibs[draw(st.integers(0, len(sibs) - 1))]
+            i, j = draw(st.permutations(range(len(g_))))[:2]
+            src, dst = list(_get(c, g_[i])), list(_get(c, g_[j]))
+            take = draw(st.integers(1, len(src)))
+            dst, src = dst + src[len(src) - take :], src[: len(src) - take]
+            c = _set(_set(c, g_[i], src), g_[j], dst)
         elif m == "empty":
             lists = [p for p in _list_paths(c)]
             if not lists:
